@@ -368,6 +368,14 @@ fn grammar_strings(fx: &Fixture) -> Vec<String> {
             v.push(format!("${}$v=19$m=8,t=1,p=1${}${}", a, e.encode([2u8; 16]), e.encode(vec![0xa5u8; n])));
         }
     }
+    // every memory cost 8..=2100 KiB (all residues of the 4-lane-slice and 128-word address
+    // block granularities), a stride above that, pass counts 1..=3
+    for a in ["argon2id", "argon2i"] {
+        for m in (8..=2100usize).chain((2101..=4200).step_by(37)) {
+            let t = if m <= 2100 { 1 + (m % 3 == 0 && m < 600) as usize } else { 1 + m % 3 };
+            v.push(format!("${}$v=19$m={},t={},p=1${}${}", a, m, t, e.encode([2u8; 16]), e.encode([6u8; 32])));
+        }
+    }
     // structural mutants of a valid string
     let valid = fx.valid_pwstr.clone();
     let fields: Vec<&str> = valid.split('$').collect();
